@@ -27,7 +27,10 @@ def run(ctx):
             if not path:
                 continue
             lits = lits_for(prog, path, fmt.bits, depth=1)
+            import probes
             cells = cuts_to_cells(fmt.bits, lits)
+            have = {c[0] for c in cells if c[0] == c[1]}
+            cells += [c for c in probes.singles(probes.float_tie_probes(pty, fmt)) if c[0] not in have]
             st = run_cells(ctx, prog, 'GCR', '%s::from_%s' % (pty.name, fname), path,
                            lambda cell, fmt=fmt: [float_arg(fmt.bits, cell[0][0], cell[0][1], 0)], [cells],
                            f2p_spec(pty, fmt), pty.bits)
